@@ -8,6 +8,7 @@ INVARIANT LawTimeOnlyFull
 INVARIANT LawClosedForm
 INVARIANT LawBands
 INVARIANT LawCompass
+INVARIANT LawStored
 INVARIANT LawGroups
 INVARIANT LawDecider
 INVARIANT LawTraj
